@@ -635,6 +635,40 @@ func main() {
 			res.Fail(cls, map[string]any{"s": s, "t": t, "template": tpl}, fmt.Sprintf("Template(%q) = %q err=%v panic=%q, want %q", tpl, got, hasErr, p, want))
 		}
 	}
+	// O2/O3 at the size limits of the evaluator (review 2, N1): a text literal is a value of its own length, so it is
+	// written out whatever its length; a concatenation may refuse a result above types.MaxTextLength with an ERROR, but
+	// a template never silently loses a value
+	longLiteral := func(name string, parts []string, mayRefuse bool) {
+		res.OracleChecks++
+		quoted := make([]string, len(parts))
+		for i, p := range parts {
+			quoted[i] = strconv.Quote(p)
+		}
+		tpl := "x @(" + strings.Join(quoted, " & ") + ") y"
+		want := "x " + strings.Join(parts, "") + " y"
+		got, hasErr, p := templateReal(tpl, vals)
+		if p == "" && got == want && !hasErr {
+			return
+		}
+		if p == "" && hasErr && mayRefuse {
+			res.Dist("O2:long-literal-refused-with-error")
+			return
+		}
+		res.Fail("literal-faithful:value-at-size-limit-lost", map[string]any{"case": name},
+			fmt.Sprintf("%s: Template(`x @(...) y`) gave %d bytes (%q...) err=%v panic=%q, the statement prescribes the %d bytes of the literal(s) between `x ` and ` y`",
+				name, len(got), ellipsis(got, 12), hasErr, p, len(want)))
+	}
+	{
+		m := types.MaxTextLength
+		a := func(n int) string { return strings.Repeat("a", n) }
+		longLiteral(fmt.Sprintf("one literal of %d bytes", m-1), []string{a(m - 1)}, false)
+		longLiteral(fmt.Sprintf("one literal of %d bytes", m), []string{a(m)}, false)
+		longLiteral(fmt.Sprintf("one literal of %d bytes", m+1), []string{a(m + 1)}, false)
+		longLiteral(fmt.Sprintf("one literal of %d two-byte runes", m/2), []string{strings.Repeat("é", m/2)}, false)
+		longLiteral(fmt.Sprintf("two literals of %d bytes each", m/2), []string{a(m / 2), a(m / 2)}, false)
+		longLiteral(fmt.Sprintf("two literals of %d bytes together", m-1), []string{a(m / 2), a(m/2 - 1)}, false)
+		longLiteral(fmt.Sprintf("two literals of %d bytes together", m+1), []string{a(m / 2), a(m/2 + 1)}, true)
+	}
 	for _, s := range []string{`\`, `a\`, `\\`, `"`, `\"`, `"\`, `)`, `(`, `@`, `@(`, `@foo`, "\n", "\x01", "😀", "", `a"b\c`, `\\\`, `")`, `\")`} {
 		o2(s)
 		o3("", s, "b", "")
@@ -768,6 +802,11 @@ func main() {
 		o1c(randBody(ro), randBody(ro)+hx.Pick(ro, []string{"(", "\"", "(("})+randBody(ro)+randBody(ro))
 	}
 
+	// the table facts the theorems assume, over every code point (review 2)
+	res.OracleChecks++
+	for _, f := range exsx.TableFacts() {
+		res.Fail("table-fact-assumed-by-theorems-does-not-hold", map[string]any{"fact": f}, f)
+	}
 	b, _ := json.Marshal(res.Distribution)
 	_ = b
 	res.Write(o)
@@ -857,4 +896,12 @@ func hasTrailingBackslashLiteralBeforeQuote(e string) bool {
 		i = i + 1 + j
 	}
 	return false
+}
+
+func ellipsis(s string, n int) string {
+	rs := []rune(s)
+	if len(rs) <= n {
+		return s
+	}
+	return string(rs[:n]) + "..."
 }
